@@ -735,11 +735,13 @@ class ServiceInfo(RecordUpdateListener):
         """
         cache = zc.cache
         original_server_key = self.server_key
-        cached_srv_record = cache.get_by_details(self._name, _TYPE_SRV, _CLASS_IN)
-        if cached_srv_record:
+        # Look at every cached SRV/TXT record, oldest first, not only at the one added
+        # last: when that one has expired but an earlier one is still valid, the
+        # earlier one counts as a known answer, so the question is never asked and
+        # the request would time out without ever learning the server.
+        for cached_srv_record in cache.get_all_by_details(self._name, _TYPE_SRV, _CLASS_IN):
             self._process_record_threadsafe(zc, cached_srv_record, now)
-        cached_txt_record = cache.get_by_details(self._name, _TYPE_TXT, _CLASS_IN)
-        if cached_txt_record:
+        for cached_txt_record in cache.get_all_by_details(self._name, _TYPE_TXT, _CLASS_IN):
             self._process_record_threadsafe(zc, cached_txt_record, now)
         if original_server_key == self.server_key:
             # If there is a srv which changes the server_key,
